@@ -63,11 +63,11 @@ func (r Req) String() string { return [...]string{"default", "required", "option
 // TypeSpec describes one type position.
 type TypeSpec struct {
 	Kind   Kind        `json:"k"`
-	Elem   *TypeSpec   `json:"e,omitempty"`  // list/set element, map value
-	Key    *TypeSpec   `json:"key,omitempty"` // map key
-	Struct *StructSpec `json:"st,omitempty"` // inline anonymous struct
-	Ref    string      `json:"ref,omitempty"` // named struct (registry)
-	Ptr    bool        `json:"ptr,omitempty"` // struct held through a pointer
+	Elem   *TypeSpec   `json:"e,omitempty"`     // list/set element, map value
+	Key    *TypeSpec   `json:"key,omitempty"`   // map key
+	Struct *StructSpec `json:"st,omitempty"`    // inline anonymous struct
+	Ref    string      `json:"ref,omitempty"`   // named struct (registry)
+	Ptr    bool        `json:"ptr,omitempty"`   // struct held through a pointer
 	GoInt  bool        `json:"goint,omitempty"` // i64 held in a Go `int`
 	Named  string      `json:"named,omitempty"` // enum type name / typedef'd scalar name
 }
@@ -103,13 +103,13 @@ type Extra struct {
 
 // StructSpec is one struct type. Fields are in Go declaration order.
 type StructSpec struct {
-	Name     string         `json:"name,omitempty"` // "" = anonymous (reflect.StructOf)
-	Fields   []*FieldSpec   `json:"f"`
-	Holder   bool           `json:"h,omitempty"`  // has _unknownFields []byte
-	Extras   []Extra        `json:"x,omitempty"`
-	HasInit  bool           `json:"init,omitempty"` // declares InitDefault()
-	Defaults map[uint16]Val `json:"def,omitempty"`  // values InitDefault assigns (others zero)
-	InitWhole bool          `json:"iw,omitempty"`   // InitDefault body is `*p = T{...}` (resets everything)
+	Name      string         `json:"name,omitempty"` // "" = anonymous (reflect.StructOf)
+	Fields    []*FieldSpec   `json:"f"`
+	Holder    bool           `json:"h,omitempty"` // has _unknownFields []byte
+	Extras    []Extra        `json:"x,omitempty"`
+	HasInit   bool           `json:"init,omitempty"` // declares InitDefault()
+	Defaults  map[uint16]Val `json:"def,omitempty"`  // values InitDefault assigns (others zero)
+	InitWhole bool           `json:"iw,omitempty"`   // InitDefault body is `*p = T{...}` (resets everything)
 }
 
 // WT returns the wire type code.
